@@ -373,13 +373,9 @@ func (e *env) excluded() string {
 	return ""
 }
 
-// a crash on an input the model does not cover is judged directly; the known weight defect is
-// recognised by what the input contains, anything else is reported generically
+// a crash on an input the model does not cover is judged directly: since 290c777 / c9fb527 no
+// input may make NewTable or a lookup panic
 func outsideWhat(fn, why string, e *env, buildPanic bool) string {
-	switch {
-	case e.edgeWeight:
-		return fn + " / Lookup panicked on an input outside the modelled domain that carries an Inf / subnormal-range / huge weight (same defect as F-C02-1..3; " + why + ")"
-	}
 	return fn + " / Lookup panicked on an input outside the modelled domain (" + why + ")"
 }
 
@@ -718,6 +714,11 @@ func observeBuild(r *rand.Rand, build func() (route.Table, error), nLook int) (i
 		}
 		return implTerm, nil, human, nil
 	}
+	if t == nil {
+		// (nil, nil): SetTable would ignore it, so this configuration could never be installed
+		human["build"] = "nil table without an error"
+		return vh.Err(96), nil, human, nil
+	}
 	implTerm = vh.Ok(coqTobs(dumpTable(t)))
 	human["build"] = "ok"
 	var hl []string
@@ -1014,16 +1015,22 @@ func genWatchScript(r *rand.Rand, si int, crash bool) watchScript {
 	crashAt := -1
 	if crash {
 		crashAt = 1 + r.Intn(n-1)
-		sc.class = "watch-crash-text"
+		sc.class = "watch-edge-weight-text"
 		sc.crash = true
 	}
 	big := si%5 == 4 && !crash
+	emptied := si%5 == 2 && !crash
 	for k := 0; k < n; k++ {
 		man := r.Intn(5) < 2
 		var t string
 		switch {
 		case k == crashAt:
 			t = crashTexts[si%len(crashTexts)]
+		case emptied && k >= 1 && k <= 2:
+			// both channels deliver a configuration without commands: the EMPTY table is installed
+			t = pick(r, []string{"", "# nothing left", "\n\n", "// none\n   "})
+			man = k == 2
+			sc.class = "watch-valid-empty-valid"
 		case big && k == 1:
 			t = bigTextEarlyError(r)
 			sc.class = "watch-big-text-early-error"
@@ -1243,7 +1250,7 @@ func loopCases(run *vh.Run) {
 		run.Violation(run.NextID(), "custom backend driver: the stale-state job did not complete", crashLog[staleJob])
 	}
 	if crashLog[customCrashJob] != "" {
-		run.Violation(run.NextID(), "custom backend: weight 5e-324 in the polled definitions crashed the process (no recover in the polling goroutine): "+crashLog[customCrashJob], jobs[customCrashJob].Docs[1])
+		run.Violation(run.NextID(), "custom backend: the polling goroutine crashed the process on a definition with weight 5e-324: "+crashLog[customCrashJob], jobs[customCrashJob].Docs[1])
 	} else if ls := lines[customCrashJob]; len(ls) != 2 {
 		run.Violation(run.NextID(), "custom backend driver: the crash job did not complete", nil)
 	}
